@@ -180,11 +180,56 @@ def main():
     i = rawf.index("async", rawf.index(".get("))
     i = rawf.index("{", i)
     fst = S.statements(rawf[i + 1:S.match_close(rawf, i)])
-    if not (len(fst) == 3
-            and re.match(r"^ifletOk\(path\)=self\.local\.locate_file\(module,file_kind\)\.await\{returnOk\(\(path,None\)\);\}$", fst[0])
-            and re.match(r"^ifletSome\(lookup\)=lookup\(module,file_kind\)\{forurlin&self\.urls\{letfetch=fetch_lookup\(&self\.client,url,&lookup,&self\.cache,&self\.tmp\)\.await;ifletOk\(\(path,url\)\)=fetch\{returnOk\(\(path,url\)\);\}\}ifcfg!\(feature=\"mozilla_cab_symbols\"\)\{.*\}\}$", fst[1])
-            and fst[2] == "Err(FileError::NotFound)"):
-        die("locate_file_internal closure is not [local lookup; per-server fetch; NotFound]: " + " || ".join(x[:120] for x in fst))
+    # the closure's statements as a program of C12/FileProg.v's instruction set
+    def take(text, table, what):
+        out = []
+        while text:
+            for rx, tag in table:
+                m = re.match(rx, text)
+                if m:
+                    if callable(tag):
+                        t, used = tag(text)
+                        out.append(t)
+                        text = text[used:]
+                    else:
+                        out.append(tag)
+                        text = text[m.end():]
+                    break
+            else:
+                die("%s: no instruction for: %s" % (what, text[:160]))
+        return out
+
+    def for_servers(text):
+        i = text.index("{")
+        j = S.match_close(text, i)
+        body = take(text[i + 1:j], [
+            (r"letfetch=fetch_lookup\(&self\.client,url,&lookup,&self\.cache,&self\.tmp\)\.await;", "FFetchAwait"),
+            (r"ifletOk\(\(path,url\)\)=fetch\{returnOk\(\(path,url\)\);\}", "FIfFetchOkReturn"),
+        ], "locate_file_internal closure, for url in &self.urls")
+        return "FForServers [" + "; ".join(body) + "]", j + 1
+
+    def cab(text):
+        i = text.index("{")
+        j = S.match_close(text, i)
+        return "FCabCompiledOut", j + 1
+
+    p_file_body = []
+    for st in fst:
+        if re.match(r"^ifletOk\(path\)=self\.local\.locate_file\(module,file_kind\)\.await\{returnOk\(\(path,None\)\);\}$", st):
+            p_file_body.append("FLocalLookupReturn")
+        elif re.match(r"^ifletSome\(lookup\)=lookup\(module,file_kind\)\{.*\}$", st):
+            i = st.index("{")
+            if S.match_close(st, i) != len(st) - 1:
+                die("locate_file_internal closure: text after the `if let Some(lookup)` block")
+            inner = take(st[i + 1:-1], [
+                (r"forurlin&self\.urls\{", for_servers),
+                (r"ifcfg!\(feature=\"mozilla_cab_symbols\"\)\{", cab),
+            ], "locate_file_internal closure, if let Some(lookup)")
+            p_file_body.append("FIfLookup [" + "; ".join(inner) + "]")
+        elif st == "Err(FileError::NotFound)":
+            p_file_body.append("FNotFound")
+        else:
+            die("locate_file_internal closure: no instruction for statement: " + st[:200])
     for w in ("cached_file_paths", "pending_stats", "self.symbols", "self.stats", "locate_file_internal"):
         if any(w in x for x in fst):
             die("locate_file_internal closure touches " + w)
@@ -219,7 +264,7 @@ def main():
         return '"' + x + '"'
     o = []
     o.append("(* GENERATED by translate/c12_program.py from breakpad-symbols/src/{lib,http}.rs — do not edit. *)")
-    o.append("From RM Require Import C12.ProgModel.")
+    o.append("From RM Require Import C12.ProgModel C12.FileProg.")
     o.append("")
     o.append("(* CachedAsyncResult::get *)")
     o.append("Definition src_get : list instr := %s." % lst(p_get))
@@ -229,6 +274,8 @@ def main():
     o.append("(* the closure HttpSymbolSupplier::locate_file_internal passes to get; locate_file_internal is")
     o.append("   self.cached_file_paths.cache_default(file_key(module, file_kind)).get(|| async {..}).await.as_ref().clone() *)")
     o.append("Definition src_file_closure : list instr := %s." % lst(p_file))
+    o.append("(* ... and its statements (C12/FileProg.v gives them their meaning: FileModel.file_script) *)")
+    o.append("Definition src_file_body : list fins := %s." % lst(p_file_body))
     o.append("(* fill_symbol / walk_frame / get_symbol_at_address / HttpSymbolSupplier::locate_file")
     o.append("   (Symbolizer::get_file_path is `self.supplier.locate_file(module, file_kind).await`) *)")
     o.append("Definition src_entry (e : entry) : list instr :=")
